@@ -5,6 +5,7 @@ package main
 // everywhere and nothing else.
 
 import (
+	"bytes"
 	"encoding/json"
 	"fmt"
 	avronull "github.com/philpearl/avro/null"
@@ -16,6 +17,7 @@ import (
 	"strings"
 	"sync"
 	"time"
+	"unsafe"
 
 	"github.com/philpearl/avro"
 )
@@ -991,6 +993,8 @@ func c20Worker(arg json.RawMessage) (any, error) {
 			out = append(out, []c20ContRes{{Container: "anon-check", SchemaErr: c20AnonCheck()}})
 		case "relib":
 			out = append(out, []c20ContRes{{Container: "anon-check", SchemaErr: c20RelibCheck()}})
+		case "enumreg":
+			out = append(out, []c20ContRes{{Container: "anon-check", SchemaErr: c20EnumCheck()}})
 		default:
 			return nil, fmt.Errorf("unknown step %q", st.Op)
 		}
@@ -1243,7 +1247,7 @@ func (p *c20Parent) scenario(label string, steps []c20Step, noOracle bool) {
 		}
 		conts := results[ri]
 		ri++
-		if st.Op == "anon" || st.Op == "relib" {
+		if st.Op == "anon" || st.Op == "relib" || st.Op == "enumreg" {
 			r.Count("anon-registration")
 			if len(conts) == 1 && conts[0].SchemaErr != "" {
 				p.failOnce(-1, "registration-of-unnamed-type", conts[0].SchemaErr, map[string]any{"scenario": label})
@@ -1614,6 +1618,9 @@ func runC20(r *Run) {
 	// the library's own RegisterCodecs calls are registrations like any other: called again
 	// after an application registered something else for time.Time, they are the latest
 	p.scenario("library-registration-again", []c20Step{{Op: "relib"}}, true)
+	// a registration is the only way to use a schema kind the library has no codec of its own for
+	// (enum): the registered builder governs the type in every position, whatever the schema says
+	p.scenario("registered-enum-schema", []c20Step{{Op: "enumreg"}}, true)
 	// registration only after a first codec was built without any
 	p.scenario("first-after-build", []c20Step{
 		{Op: "run", Containers: late, Seed: seed, N: nv, Hold: true},
@@ -1748,6 +1755,132 @@ func c20AnonCheck() string {
 	for i, f := range s.Object.Fields {
 		if schemaJSON(f.Type) != schemaJSON(want[i]) {
 			return fmt.Sprintf("field %s of a struct using a type with a registered schema is generated as %s, registered (in that position): %s", f.Name, schemaJSON(f.Type), schemaJSON(want[i]))
+		}
+	}
+	return ""
+}
+
+// c20EnumCheck (child): a string-kind type registered with an enum schema and a builder that
+// writes the symbol's index.  The generated schema carries the enum in every position, codecs
+// build, values written through the generic Encoder read back through ReadFile.
+type c20Color string
+
+var c20Colors = []string{"RED", "GREEN", "BLUE"}
+
+type c20ColorCodec struct{ avro.StringCodec }
+
+func (c20ColorCodec) Read(r *avro.ReadBuf, p unsafe.Pointer) error {
+	i, err := r.Varint()
+	if err != nil {
+		return err
+	}
+	if i < 0 || int(i) >= len(c20Colors) {
+		return fmt.Errorf("enum index %d out of range", i)
+	}
+	*(*c20Color)(p) = c20Color(c20Colors[i])
+	return nil
+}
+func (c20ColorCodec) Skip(r *avro.ReadBuf) error { _, err := r.Varint(); return err }
+func (c20ColorCodec) Write(w *avro.WriteBuf, p unsafe.Pointer) {
+	for i, n := range c20Colors {
+		if string(*(*c20Color)(p)) == n {
+			w.Varint(int64(i))
+			return
+		}
+	}
+	w.Varint(0)
+}
+func (c20ColorCodec) Omit(p unsafe.Pointer) bool { return false }
+func (c20ColorCodec) New(r *avro.ReadBuf) unsafe.Pointer {
+	return r.Alloc(reflect.TypeOf(c20Color("")))
+}
+
+type c20Paint struct {
+	Main   c20Color            `json:"main"`
+	Opt    *c20Color           `json:"opt"`
+	All    []c20Color          `json:"all"`
+	ByName map[string]c20Color `json:"by_name"`
+	N      int64               `json:"n"`
+}
+
+func c20EnumCheck() string {
+	enum := avro.Schema{Type: "enum", Object: &avro.SchemaObject{Type: "enum", Name: "Color", Symbols: c20Colors}}
+	avro.Register(reflect.TypeOf(c20Color("")), func(s avro.Schema, typ reflect.Type, omit bool) (avro.Codec, error) {
+		return c20ColorCodec{}, nil
+	})
+	avro.RegisterSchema(reflect.TypeOf(c20Color("")), enum)
+	s, err := avro.SchemaForType(c20Paint{})
+	if err != nil {
+		return "SchemaForType refuses a struct of a type registered with an enum schema: " + err.Error()
+	}
+	want := []avro.Schema{enum, {Type: "union", Union: []avro.Schema{{Type: "null"}, enum}},
+		{Type: "array", Object: &avro.SchemaObject{Type: "array", Items: enum}}, {Type: "map", Object: &avro.SchemaObject{Type: "map", Values: enum}}, {Type: "long"}}
+	if s.Object == nil || len(s.Object.Fields) != len(want) {
+		return "SchemaForType(c20Paint) is not a five-field record: " + schemaJSON(s)
+	}
+	for i, f := range s.Object.Fields {
+		if schemaJSON(f.Type) != schemaJSON(want[i]) {
+			return fmt.Sprintf("field %s: generated %s, the registered schema in that position is %s", f.Name, schemaJSON(f.Type), schemaJSON(want[i]))
+		}
+	}
+	if _, err := s.Codec(c20Paint{}); err != nil {
+		return "Schema.Codec refuses the generated schema of a type whose fields are governed by a registered builder (enum schema): " + err.Error()
+	}
+	green := c20Color("GREEN")
+	vals := []c20Paint{
+		{Main: "BLUE", Opt: &green, All: []c20Color{"RED", "BLUE", "GREEN"}, ByName: map[string]c20Color{"sky": "BLUE", "grass": "GREEN"}, N: 7},
+		{Main: "RED", N: -1},
+		{Main: "GREEN", Opt: &green, All: []c20Color{"GREEN"}, ByName: map[string]c20Color{"x": "RED"}},
+	}
+	for _, comp := range compressions {
+		var buf bytes.Buffer
+		enc, err := avro.NewEncoderFor[c20Paint](&buf, comp, 30)
+		if err != nil {
+			return "NewEncoderFor refuses a type registered with an enum schema: " + err.Error()
+		}
+		for i := range vals {
+			if err := enc.Encode(&vals[i]); err != nil {
+				return "Encode: " + err.Error()
+			}
+		}
+		if err := enc.Flush(); err != nil {
+			return "Flush: " + err.Error()
+		}
+		var got []c20Paint
+		err = avro.ReadFile(bytes.NewReader(buf.Bytes()), c20Paint{}, func(val unsafe.Pointer, rb *avro.ResourceBank) error {
+			v := *(*c20Paint)(val)
+			cp := c20Paint{Main: v.Main, N: v.N, All: append([]c20Color(nil), v.All...)}
+			if v.Opt != nil {
+				o := *v.Opt
+				cp.Opt = &o
+			}
+			if v.ByName != nil {
+				cp.ByName = map[string]c20Color{}
+				for k, x := range v.ByName {
+					cp.ByName[k] = x
+				}
+			}
+			got = append(got, cp)
+			return nil
+		})
+		if err != nil {
+			return "ReadFile of a file whose schema carries a registered enum type: " + err.Error()
+		}
+		if len(got) != len(vals) {
+			return fmt.Sprintf("ReadFile delivered %d records of %d", len(got), len(vals))
+		}
+		for i := range vals {
+			a, b := vals[i], got[i]
+			same := a.Main == b.Main && a.N == b.N && (a.Opt == nil) == (b.Opt == nil) && (a.Opt == nil || *a.Opt == *b.Opt) && len(a.All) == len(b.All) && len(a.ByName) == len(b.ByName)
+			for k := range a.All {
+				same = same && k < len(b.All) && a.All[k] == b.All[k]
+			}
+			for k, x := range a.ByName {
+				same = same && b.ByName[k] == x
+			}
+			if !same {
+				return fmt.Sprintf("record %d of a type registered with an enum schema reads back as %+v, written %+v", i, b, a)
+			}
 		}
 	}
 	return ""
